@@ -496,6 +496,25 @@ func goroutineState(gid int64) string {
 	return rest
 }
 
+// ResumeDetached resumes a parked task that is expected to block inside the
+// code under test at a place without a yield (e.g. ServeChannel waiting for the
+// activation). It is marked detached at once: it continues on its own and
+// becomes an ordinary task again at its next Yield.
+func (s *Sched) ResumeDetached(t *Task) {
+	if err := s.Settle(); err != nil || t.st != stParked {
+		return
+	}
+	s.mu.Lock()
+	t.st = stRunning
+	t.label = ""
+	t.enabled = nil
+	t.detached = true
+	s.nDetached++
+	s.Steps++
+	s.mu.Unlock()
+	t.resume <- struct{}{}
+}
+
 // WaitDetached waits until no detached task is left running (each has parked
 // again or ended); it reports false on timeout (still blocked).
 func (s *Sched) WaitDetached(d time.Duration) bool {
